@@ -401,7 +401,7 @@ func genULID(t *rapid.T, label string) ulid.ULID {
 }
 
 func genBlockSpec(t *rapid.T, label string, minT int64) blockSpec {
-	return blockSpec{
+	s := blockSpec{
 		ULID:     genULID(t, label+"-ulid"),
 		MinT:     minT,
 		Series:   rapid.IntRange(1, 6).Draw(t, label+"-series"),
@@ -411,6 +411,10 @@ func genBlockSpec(t *rapid.T, label string, minT int64) blockSpec {
 		Segments: rapid.IntRange(1, 3).Draw(t, label+"-segments"),
 		Level:    1,
 	}
+	if s.Series < s.Segments {
+		s.Series = s.Segments // one chunk per series at least, so the wanted segment count is reachable
+	}
+	return s
 }
 
 func splitmix(x *uint64) uint64 {
